@@ -166,6 +166,17 @@ Fixpoint md024_go (seen : list str) (hs : list hd) : list nat :=
               ++ md024_go (h_content h :: seen) r
   end.
 Definition md024 (lvs : list leaf) : verdict := only (md024_go [] (headings lvs)).
+(* siblings_only / allow_different_nesting: only a heading of the same level under the same parent heading counts; a heading
+   of level L starts a new family for every deeper level *)
+Fixpoint md024s_go (seen : list (nat * str)) (hs : list hd) : list nat :=
+  match hs with
+  | [] => []
+  | h :: r =>
+    let seen' := filter (fun p => fst p <=? h_lvl h) seen in
+    (if existsb (fun p => Nat.eqb (fst p) (h_lvl h) && (if list_eq_dec N.eq_dec (snd p) (h_content h) then true else false)) seen' then [h_line h] else [])
+    ++ md024s_go ((h_lvl h, h_content h) :: seen') r
+  end.
+Definition md024s (lvs : list leaf) : verdict := only (md024s_go [] (headings lvs)).
 
 (* MD003: heading style *)
 Inductive hstyle := SAtx | SAtxClosed | SSetext.
@@ -377,7 +388,7 @@ Definition run_rules (p : list nat) (punct : str) (hr : str) (pieces : list str)
     (19, md019 lvs);
     (22, md022 (g 9) (g 10) pieces lvs);
     (23, md023 lvs);
-    (24, md024 lvs);
+    (24, if Nat.eqb (g 17) 1 then md024s lvs else md024 lvs);
     (25, md025 (g 11) lvs);
     (26, md026 punct lvs);
     (31, md031 pieces lvs);
